@@ -1,24 +1,29 @@
 """C29 - Smart protocol messages survive the wire unchanged under every segmentation.
 
 Every message of a small grammar (protocol versions 1, 2, 3; requests and responses; argument
-tuples of <= 2 over {'', 'a', '\\x01', 'ü', '\\n'}; no body / body of 0, 1, 17 (70, 300) bytes /
-readv offset lists of <= 2 pairs / streamed bodies of <= 2 (3) chunks incl. empty ones / an error
-raised in mid stream / error responses) is encoded by breezy's real encoder of one side and decoded
-by the real decoder of the other side under ALL segmentations of the byte stream, explored as an
-explicit-state search: state = (bytes delivered, snapshot of the decoder / handler objects incl.
-the fragment buffer), event = deliver d >= 1 more bytes, states are deduplicated (O(n^2) instead of
-2^n executions per message) and every (state, d) transition is executed on the real code.
+tuples of <= 2 over {'', 'a', '\\x01', 'ü', '\\n'}; no body / body of 0, 1, 17 (thorough: 70, 300)
+bytes / readv offset lists of <= 2 pairs / streamed bodies of <= 2 (thorough 3) chunks incl. empty
+ones / an error raised in mid stream / failure, error and unknown-method responses / unknown verbs /
+v3 headers empty or real) is encoded by breezy's real encoder of one side and decoded by the real
+decoder of the other side under ALL segmentations of the byte stream, explored as an explicit-state
+search: state = (bytes delivered, snapshot of the decoder / handler / protocol objects incl. the
+fragment buffer), event = deliver d >= 1 more bytes; states are deduplicated (O(n^2) instead of 2^n
+executions per message) and every (state, d) transition is executed on the real code.
 Decoders: ChunkedBodyDecoder and LengthPrefixedBodyDecoder directly; SmartServerRequestProtocolOne
 / Two.accept_bytes and build_server_protocol_three (ProtocolThreeDecoder + ConventionalRequestHandler
 + SmartServerRequestHandler with recording verbs); ProtocolThreeDecoder + ConventionalResponseHandler
 fed by accept_bytes; SmartClientRequestProtocolOne / Two and ConventionalResponseHandler pulling
 through a SmartClientStreamMedium whose reads return any number of bytes; the real
 SmartServerSocketStreamMedium.serve() over a socket whose recv returns any number of bytes of two
-pipelined requests.  Oracle: the decoded arguments / body / offsets / chunks / error equal what was
-encoded, whatever the segmentation; the decoder is complete once the message is in and its
-unused_data (excess) equals exactly the bytes of the next message delivered so far; pipelined
-requests are all answered.  For messages of <= 14 bytes all 2^(n-1) segmentations are additionally
-run without the state cache and must visit exactly the states the search found.
+or three pipelined requests (recording verbs and the real hello/get/put/has/readv verbs).
+Oracle: the decoded arguments / body / offsets / chunks / error equal what was encoded, whatever the
+segmentation; the decoder is complete exactly once the message is in and its unused_data (excess)
+equals exactly the bytes of the next message delivered so far (0..5 of them); pipelined requests are
+all answered with the right responses.  Cross-checks of the state cache: for messages of <= 14 bytes
+all 2^(n-1) segmentations are run without it and must visit exactly the states the search found
+(with the unabstracted fragment list); for v3 messages all 2^12 cut sets inside three windows.
+Quick tier: v3 messages carry an empty headers dict except one message per shape (slice H); the
+socket medium gets a reduced v3 slice; thorough: the whole grammar with the real headers.
 """
 from mc import par
 from mc.evidence import HarnessError
@@ -211,6 +216,7 @@ def run(ctx):
         "windowed_brute_force_executions": wn.n,
         "search_audits": au.n,
         "distinct_nontrivial": len(acc.nontrivial),
+        "distinct_outcome_classes": len(acc.outcomes),
         "rule": "one case = one (harness, message, following bytes); non-trivial = at least 2 bytes on the wire (more than one segmentation)",
         "violations_raw": acc.counters.get("violations_raw", 0),
         "samples": acc.samples[:4],
